@@ -349,6 +349,20 @@ MutableNodeRefList::addNodesInDocOrder(
 
 
 
+// Normalize so that a document node owns itself, which
+// is not how DOM works...
+static inline const XalanNode*
+getNormalizedOwner(const XalanNode&     node)
+{
+    const XalanNode::NodeType   theType = node.getNodeType();
+
+    return theType == XalanNode::DOCUMENT_NODE ||
+           theType == XalanNode::DOCUMENT_FRAGMENT_NODE ?
+                &node : node.getOwnerDocument();
+}
+
+
+
 static bool
 findInsertionPointBinarySearch(
             XalanNode*                                  node,
@@ -469,6 +483,10 @@ findInsertionPointLinearSearch(
 
     NodeListIteratorType    current(begin);
 
+    const XalanNode* const  theNodeOwner = getNormalizedOwner(*node);
+
+    bool    fSeenOwner = false;
+
     // Loop, looking for the node, or for a
     // node that's before the one we're adding...
     while(current != end)
@@ -483,14 +501,32 @@ findInsertionPointLinearSearch(
 
             break;
         }
-        else if (isNodeAfterPredicate(*node, *child) == false)
+        else if (getNormalizedOwner(*child) != theNodeOwner)
         {
-            // We found the insertion point...
-            break;
+            if (fSeenOwner == true)
+            {
+                // We're past the nodes of the node's document, and
+                // nodes of different documents are never interleaved...
+                break;
+            }
+            else
+            {
+                ++current;
+            }
         }
         else
         {
-            ++current;
+            fSeenOwner = true;
+
+            if (isNodeAfterPredicate(*node, *child) == false)
+            {
+                // We found the insertion point...
+                break;
+            }
+            else
+            {
+                ++current;
+            }
         }
     }
 
@@ -508,25 +544,9 @@ struct DocumentPredicate
             const XalanNode&    node1,
             const XalanNode&    node2) const
     {
-        // Always order a document node, or a node from another
-        // document after another node...
-        const XalanNode::NodeType   node1Type =
-            node1.getNodeType();
-
-        const XalanNode::NodeType   node2Type =
-            node2.getNodeType();
-
-        if ((node1Type == XalanNode::DOCUMENT_NODE ||
-             node1Type == XalanNode::DOCUMENT_FRAGMENT_NODE) &&
-            (node2Type == XalanNode::DOCUMENT_NODE ||
-             node2Type == XalanNode::DOCUMENT_FRAGMENT_NODE))
-        {
-            return true;
-        }
-        else
-        {
-            return node1.getOwnerDocument() != node2.getOwnerDocument();
-        }
+        // Always order a node from another document
+        // after another node...
+        return getNormalizedOwner(node1) != getNormalizedOwner(node2);
     }
 };
 
@@ -539,8 +559,6 @@ struct IndexPredicate
             const XalanNode&    node1,
             const XalanNode&    node2) const
     {
-        assert(node1.getOwnerDocument() == node2.getOwnerDocument());
-
         return m_documentPredicate(node1, node2) == true ? true : node1.getIndex() > node2.getIndex() ? true : false;
     }
 
@@ -566,14 +584,18 @@ struct ExecutionContextPredicate
         {
             return true;
         }
+        else if (&node1 == getNormalizedOwner(node1))
+        {
+            // A document node is before all of the nodes it owns...
+            return false;
+        }
+        else if (&node2 == getNormalizedOwner(node2))
+        {
+            return true;
+        }
         else
         {
             assert(node1.getOwnerDocument() == node2.getOwnerDocument());
-            assert(
-                node1.getNodeType() != XalanNode::DOCUMENT_NODE &&
-                node1.getNodeType() != XalanNode::DOCUMENT_FRAGMENT_NODE &&
-                node2.getNodeType() != XalanNode::DOCUMENT_NODE &&
-                node2.getNodeType() != XalanNode::DOCUMENT_FRAGMENT_NODE);
 
             return  m_executionContext.isNodeAfter(node1, node2);
         }
@@ -629,7 +651,7 @@ MutableNodeRefList::addNodeInDocOrder(
                 assert(theFirstNodeOwner != 0);
 
                 if (node->isIndexed() == true &&
-                    node->getOwnerDocument() == theFirstNodeOwner)
+                    getNormalizedOwner(*node) == theFirstNodeOwner)
                 {
                     // If it's indexed, then see if the entire list consists of
                     // nodes from the same document.
